@@ -124,6 +124,17 @@ def skel_terms(tier: str):
                 push((tag, o, o2))
             push(("mul", (o, o2)))
             push(("add", (o, o2)))
+    # offenders two levels down: every unary / parameterised parent over every two-argument node that holds an
+    # offender next to a variable (a rule of the parent that looks into a sum / product / quotient meets it there)
+    deep_offs = offs + ([Log(C(0)), Root(C(-4), 2)] if full else [])
+    for o in deep_offs:
+        for p in uv:
+            for tag in M.BINARY:
+                push(apply_unary(p, (tag, o, x)))
+                push(apply_unary(p, (tag, x, o)))
+            for tag in M.NARY:
+                push(apply_unary(p, (tag, (o, x))))
+                push(apply_unary(p, (tag, (x, o))))
     return out
 
 
